@@ -26,7 +26,7 @@ func (g *G) goOnly(thorough bool) {
 	if thorough {
 		n = 6000
 	}
-	count := 0
+	count, knownSeen := 0, 0
 	for i := 0; i < n; i++ {
 		a := g.randomAct(g.r.Intn(4))
 		switch g.r.Intn(3) {
@@ -97,6 +97,10 @@ func (g *G) goOnly(thorough bool) {
 			k := key
 			if a.kind != kJoin && sess.optNeg {
 				k = fmt.Sprintf("rejoin:optneg=true:session-keys:type=%d:dev=%x:nonce=%d:go-oracle", a.reqtype(), a.dev.devEUI, a.devNonce)
+				knownSeen++
+				if knownSeen > 3 { // the same recorded finding on every rejoin: three replays are enough
+					continue
+				}
 			}
 			fail(k, "session key in the answer differs from the key the device derives: "+bad)
 			continue
